@@ -406,3 +406,113 @@ func VerifMachineProcs(sess *Session, rs []*Result) [][2]int {
 	}
 	return out
 }
+
+// ---- an in-process worker (C12wk): the worker's own Compile/Run/Discard/Stat methods, called directly, with a task store
+// whose Discard can be held at a gate so that calls overlap in a controlled way.
+
+type verifGateStore struct {
+	Store
+	mu      sync.Mutex
+	hold    chan struct{} // when non-nil, Discard waits for it to be closed before it acts
+	entered chan struct{}
+}
+
+func (g *verifGateStore) Discard(ctx context.Context, task TaskName, partition int) error {
+	g.mu.Lock()
+	h, e := g.hold, g.entered
+	g.mu.Unlock()
+	if h != nil {
+		select {
+		case e <- struct{}{}:
+		default:
+		}
+		<-h
+	}
+	return g.Store.Discard(ctx, task, partition)
+}
+
+type VerifWorker struct {
+	w    *worker
+	b    *bigmachine.B
+	inv  uint64
+	gate *verifGateStore
+}
+
+// VerifNewWorker builds a worker as bigmachine would (Init), gives it a gated memory store and compiles the invocation
+// of fn on it through (*worker).Compile.
+func VerifNewWorker(fn *bigslice.FuncValue, args ...interface{}) (*VerifWorker, error) {
+	b := bigmachine.Start(testsystem.New())
+	w := &worker{}
+	if err := w.Init(b); err != nil {
+		b.Shutdown()
+		return nil, err
+	}
+	gate := &verifGateStore{Store: newMemoryStore(), entered: make(chan struct{}, 16)}
+	w.store = gate
+	inv := makeExecInvocation(fn.Invocation("verif", args...))
+	var buf bytes.Buffer
+	if err := gob.NewEncoder(&buf).Encode(inv); err != nil {
+		b.Shutdown()
+		return nil, err
+	}
+	if err := w.Compile(context.Background(), &buf, nil); err != nil {
+		b.Shutdown()
+		return nil, err
+	}
+	return &VerifWorker{w: w, b: b, inv: inv.Index, gate: gate}, nil
+}
+
+func (v *VerifWorker) Close() { v.b.Shutdown() }
+
+// Roots returns the names of the invocation's root tasks.
+func (v *VerifWorker) Roots() []TaskName {
+	v.w.mu.Lock()
+	defer v.w.mu.Unlock()
+	r := v.w.slices[v.inv].(*Result)
+	var names []TaskName
+	for _, t := range r.tasks {
+		names = append(names, t.Name)
+	}
+	return names
+}
+
+func (v *VerifWorker) task(name TaskName) *Task {
+	v.w.mu.Lock()
+	defer v.w.mu.Unlock()
+	return v.w.tasks[v.inv][name]
+}
+
+// Run is (*worker).Run, as the RPC layer calls it.
+func (v *VerifWorker) Run(ctx context.Context, name TaskName) error {
+	var reply taskRunReply
+	return v.w.Run(ctx, taskRunRequest{Invocation: v.inv, Name: name}, &reply)
+}
+
+// Discard is (*worker).Discard.
+func (v *VerifWorker) Discard(ctx context.Context, name TaskName) error {
+	return v.w.Discard(ctx, name, nil)
+}
+
+func (v *VerifWorker) State(name TaskName) TaskState { return v.task(name).State() }
+
+// HasOutput reports whether the store holds partition 0 of the task's output.
+func (v *VerifWorker) HasOutput(name TaskName) bool {
+	_, err := v.gate.Store.Stat(context.Background(), name, 0)
+	return err == nil
+}
+
+// HoldDiscards makes every store Discard wait until release is called; entered receives a token per waiting Discard.
+func (v *VerifWorker) HoldDiscards() (release func(), entered <-chan struct{}) {
+	h := make(chan struct{})
+	v.gate.mu.Lock()
+	v.gate.hold = h
+	v.gate.mu.Unlock()
+	return func() {
+		v.gate.mu.Lock()
+		if v.gate.hold == h {
+			v.gate.hold = nil
+		}
+		v.gate.mu.Unlock()
+		close(h)
+	}, v.gate.entered
+}
